@@ -170,7 +170,7 @@ REGISTRY = {
         "assumptions": [EXTERNAL, "the traversal that finds indel bubbles is not modelled: reality of calls and recall are decided by oracle runs, not by theorem"],
     },
     "C19": {
-        "level": "fault_enumeration", "modules": ["SkaModel.Props.C19"], "gen": [], "cli": [cli.c19_cli],
+        "level": "fault_enumeration", "modules": ["SkaModel.Props.C19", "SkaModel.Props.C19Final"], "gen": [], "cli": [cli.c19_cli],
         "rule": "complete enumeration of every truncation point and every single-bit flip of concrete .skf files (64- and 128-bit; thorough: also a multi-frame file at byte stride 9) through the real loader with the lib.rs dispatch; each fault is a distinct non-trivial case; the frame-decoder model is cross-checked against snap on a subset; random faults through every CLI subcommand",
         "trusted_base": COMMON_TRUST, "assumptions": [EXTERNAL, "flips inside compressed payloads / chunk type / length bytes are decided per file by enumeration, not by theorem (2^-32 CRC events)"],
     },
